@@ -61,7 +61,7 @@ def midOf (seed : Nat) : State := fun k =>
 def sizeable (k : Nat) : Bool :=
   match kinds.getD k .ref with
   | .objstack => true
-  | .seq | .obj => roles.getD k .unclassified == .transient
+  | .seq | .obj => roles.getD k .unclassified == .transient || roles.getD k .unclassified == .guarded
   | .num | .ptr | .flag => roles.getD k .unclassified == .transient
   | _ => false
 
